@@ -368,7 +368,7 @@ fn drive(p: &dyn Property, tier: Tier) -> ! {
     if !missing.is_empty() && no_viol {
         machinery(&format!("vacuous run: features never exercised: {missing:?}"));
     }
-    if merged.evaluations == 0 {
+    if merged.evaluations == 0 && no_viol {
         machinery("vacuous run: no case was executed");
     }
 
